@@ -35,7 +35,8 @@ def _work(task):
         json.dump(sk, f, separators=(",", ":"))
     # cases for the transcription of the code generator (CodegenImpl.tla): recorded hierarchy + real output (or refusal)
     im = [{"flat": r["flat"], "code": r["skeleton"], "H": r["H"], "root": r["root"], "refused": r["outcome"] == "refused"}
-          for r in recs if r["H"] and not r["skexc"] and (r["outcome"] == "ok" or (r["outcome"] == "refused" and r["stage"] == "scfg2ast"))]
+          for r in recs if r["H"] and len(r["H"]) <= 70 and not r["skexc"] and (r["outcome"] == "ok" or (r["outcome"] == "refused" and r["stage"] == "scfg2ast"))]
+    # (hierarchies with more than 70 names are left to the real-output product: the transcription's cost grows cubically with their size)
     with open(path.replace("census-", "impl-"), "w") as f:
         json.dump(im, f, separators=(",", ":"))
     return [{k: r[k] for k in ("outcome", "stage", "exc", "src", "feats")} | {"nasg": len((r["census"] or {}).get("exp_asg", [])),
@@ -85,8 +86,11 @@ def main(argv):
         # the transcription of the code generator: conformance with the real output and all paths of ITS output (design level)
         imres = tlc.run_shards("Skeleton", "INIT Init\nNEXT Next\nINVARIANT SamePaths\nINVARIANT NoDrift\nALIAS Small\nCHECK_DEADLOCK FALSE\n",
                                [{"CASES": t[1].replace("census-", "impl-"), "MODE": "impl"} for t in tasks], jobs=args.jobs, workers=1, timeout=3000, heap="3g")
-        tlc.require_ok(imres, "Skeleton (CodegenImpl)")
         cg = {"states": 0, "drift": 0, "design_failures": 0}
+        if any(tr.error for tr in imres):
+            # the transcription could not be evaluated on what the code produced: drift, never a reason to hide a verdict
+            cg["drift"] = -1
+            imres = []
         for tr in imres:
             cg["states"] += tr.distinct
             states += tr.distinct
@@ -135,6 +139,6 @@ def main(argv):
         "samples": [m["src"] for m in acc[:2]],
     })
     rep.coverage["decorated_graphs"] = {"tried": sum(1 for m in flat if m["feats"] == ["graph"]), "accepted": sum(1 for m in acc if m["feats"] == ["graph"])}
-    if flat and not args.replay and len(acc) < len(flat) // 4:
+    if flat and not args.replay and len(acc) < len(flat) // 4 and not rep.violations:
         raise tlc.MachineryError("vacuous: fewer than a quarter of the generated programs were accepted")
     return rep.finish()
